@@ -94,11 +94,25 @@ func NewPreciseVector(x, y, z float64) PreciseVector {
 
 // Vector returns this precise vector converted to a Vector.
 func (v PreciseVector) Vector() Vector {
-	// The accuracy flag is ignored on these conversions back to float64.
-	x, _ := v.X.Float64()
-	y, _ := v.Y.Float64()
-	z, _ := v.Z.Float64()
-	return Vector{x, y, z}.Normalize()
+	// Scale the components by a common power of two first so that the largest
+	// has an exponent of zero: the cross product of two cross products of
+	// vectors some 1e-100 apart has components far below the float64 range,
+	// which would all convert to zero and normalize to the zero vector.
+	exp, first := 0, true
+	for _, c := range []*big.Float{v.X, v.Y, v.Z} {
+		if c.Sign() == 0 {
+			continue
+		}
+		if e := c.MantExp(nil); first || e > exp {
+			exp, first = e, false
+		}
+	}
+	scaled := func(c *big.Float) float64 {
+		// The accuracy flag is ignored on these conversions back to float64.
+		f, _ := new(big.Float).SetMantExp(c, -exp).Float64()
+		return f
+	}
+	return Vector{scaled(v.X), scaled(v.Y), scaled(v.Z)}.Normalize()
 }
 
 // Equal reports whether v and ov are equal.
